@@ -195,7 +195,7 @@ def tie_items(be: Backend, head, tvar, k_lin=K):
     L = ("at", PVAR, ("lin", k_lin))
     x = ("var", "_t")
     role = be.role
-    mem = ("each", x, ("members", tvar), PTRUE, ("f", falsification(x)))
+    mem = ("each", x, ("members", L), ("in", ("elem", x, role), tvar), ("f", falsification(x)))
     rest = ("each", x, ("members", L), ("not", ("in", ("elem", x, role), tvar)), ("f", material(x)))
     return [head, mem, rest]
 
@@ -207,7 +207,6 @@ def norm_setdiff(item):
         inner = norm_setdiff(inner)
         if fam[0] == "members" and isinstance(fam[1], tuple) and fam[1][:2] == ("setop", "-"):
             X, Y = fam[1][2], fam[1][3]
-            role = None
             g2 = ("not", ("in", ("elem", b, "key"), Y))
             if g == PTRUE:
                 return ("each", b, ("members", X), g2, inner)
@@ -226,9 +225,48 @@ def rec_hard(be: Backend, r):
     return out
 
 
-def equiv_items(a, b):
-    """Item-set equality modulo ¬falsification ≡ material (truth tables) - canon_items already compares by table."""
-    return canon_items(a) == canon_items(b)
+def _pred_formula(p):
+    k = p[0]
+    if k == "const":
+        return ("const", p[1])
+    if k == "not":
+        return ("not", _pred_formula(p[1]))
+    if k in ("and", "or"):
+        return (k, tuple(_pred_formula(q) for q in p[1]))
+    return ("opaque", p)
+
+
+def merge_guarded(items, subsets=None, role="key"):
+    """Canonical form of an item set: `each over a subset t of L` becomes `each over L guarded by membership in t`,
+    items that differ only in their guard are merged (guards or-ed) and guards are compared by truth table."""
+    subsets = subsets or {}
+    groups = {}
+    plain = []
+    x = ("var", "_g")
+    for it in items:
+        it = norm_setdiff(it)
+        if it[0] == "each":
+            _, b, fam, g, inner = it
+            if fam[0] == "members" and fam[1] in subsets:
+                g = ("and", (("in", ("elem", b, role), fam[1]), g)) if g != PTRUE else ("in", ("elem", b, role), fam[1])
+                fam = ("members", subsets[fam[1]])
+            m = {b: x}
+            key = (F.subst_any(fam, m), canon_item(F.subst_any(inner, m), 1))
+            groups.setdefault(key, []).append(_pred_formula(F.subst_any(g, m)))
+        else:
+            plain.append(canon_item(it))
+    out = set(plain)
+    for (fam, inner), gs in groups.items():
+        g = F.canon(("or", tuple(gs)))
+        if g == ("canon", (), (False,)):
+            continue
+        out.add(("each", fam, g, inner))
+    return frozenset(out)
+
+
+def equiv_items(a, b, subsets=None, role="key"):
+    """Item-set equality modulo truth tables, guard merging and subset/guard presentation."""
+    return merge_guarded(a, subsets, role) == merge_guarded(b, subsets, role)
 
 
 # ----------------------------------------------------------------------------------------------
@@ -357,7 +395,7 @@ def _check_tie_recursion(rep, be: Backend, site, tl, p, lex):
                 continue
             hard, soft = hs[0]
             want = tie_items(be, HEAD, tvar)
-            ok = equiv_items(hard, want)
+            ok = equiv_items(hard, want, {tvar: ("at", PVAR, ("lin", K))}, be.role)
             rep.check(ok, "W.decision", f"{site}:{ev.node.lineno}", "recursion constraints", "the tie is fixed: falsification for its members, non-falsification for the rest of the layer",
                       extracted=show_items(hard), required=show_items(want), function=site)
 
@@ -418,3 +456,378 @@ def subset_test_mismatch(pred, V, Fm):
             if got != want:
                 return f"V={[sorted(s) for s in fv]}, F={[sorted(s) for s in ff]}"
     return None
+
+
+# ----------------------------------------------------------------------------------------------
+# `_inference` of the MaxSAT-based operators
+# ----------------------------------------------------------------------------------------------
+def entry_paths(rep, ex: Explorer, be: Backend):
+    def extra(I):
+        st, pm = be.state(I, query_slots=False)
+        st.pop("partition", None)
+        return st
+
+    return inference_entry(rep, ex, be.cls, kind=be.kind, extra_state=extra, key=f"entry-{be.name}", pcls=CONDZ3_CLASS if be.name == "z3" else "",
+                           summaries=be.summaries(), hooks=be.hooks(), pmaxsat=Const("rc2") if be.name == "rc2" else Const("z3"))
+
+
+def rec_objects(be: Backend, rc):
+    """Hard item sets of the constraint objects handed to the recursive core (one for W, two for lex)."""
+    out = []
+    for s in rc.snap:
+        if s[0] == "wcnf":
+            hard, soft = wcnf_view(s)
+            out.append((hard, soft))
+        elif s[0] == "solver":
+            soft = [i for i in flat(s[4]) if not (i[0] == "soft" and i[1] == ("f", F.TRUE))]
+            out.append((list(flat(s[3])), soft))
+    return out
+
+
+def query_slots(rep, be: Backend, site, p, prefix, keys=False):
+    """rc2: the query's CNFs are stored in the v/f slots that `_rec_inference` reads (writer/reader agreement)."""
+    es_heap = p.state.heap
+    got = {}
+    for ev, Q in iter_events(p.events):
+        if ev.kind == "dict.set" and isinstance(ev.obj, Ref) and isinstance(ev.value, ElemV) and ev.value.role == "cnf":
+            got.setdefault(ev.obj.oid, []).append(ev)
+    # which dict is which: by looking at the state's slots
+    slots = {}
+    for oid, o in es_heap.items():
+        if hasattr(o, "entries") and "v_cnf_dict" in getattr(o, "entries", {}):
+            for name in ("v_cnf_dict", "f_cnf_dict", "nf_cnf_dict"):
+                r = o.entries.get(name)
+                if isinstance(r, Ref):
+                    slots[r.oid] = name
+    for oid, evs in got.items():
+        name = slots.get(oid, "?")
+        for ev in evs:
+            f = ev.value.var[1]
+            where = f"{site}:{ev.node.lineno}"
+            if name == "v_cnf_dict":
+                rep.check(F.equiv(f, verification(QUERY)), f"{prefix}.query-slot", where, "v slot", "the slot read as the V-side holds the CNF of the query's verification",
+                          extracted=F.show(f), required="Q.A∧Q.B", function=site)
+            elif name == "f_cnf_dict":
+                rep.check(F.equiv(f, falsification(QUERY)), f"{prefix}.query-slot", where, "f slot", "the slot read as the F-side holds the CNF of the query's falsification",
+                          extracted=F.show(f), required="Q.A∧¬Q.B", function=site)
+            if keys and name in ("f_cnf_dict", "nf_cnf_dict", "v_cnf_dict"):
+                lit = isinstance(ev.key, Const)
+                # a literal key in a dictionary that is keyed by the base's own keys
+                keyed = name in ("f_cnf_dict", "nf_cnf_dict")  # filled per base key by preprocessing (CNF.roles)
+                if keyed:
+                    rep.check(not lit, "KEY.no-reserved", where, f"query slot of {name}", "the query is stored under a key that cannot collide with a key of the base",
+                              extracted=f"literal key {ev.key.value!r}" if lit else repr(ev.key), required="a key provably outside the base's keys", function=site)
+
+
+def w_entry(rep, ex: Explorer, be: Backend, strict=True, extended=False, prefix="W", keys=False, n_objects=1):
+    site, paths = entry_paths(rep, ex, be)
+
+    def strict_obj(p, rc, mode):
+        objs = rec_objects(be, rc)
+        ok = len(objs) == n_objects
+        rep.check(ok, f"{prefix}.start", f"{site}:{rc.node.lineno}", "constraint objects", f"{n_objects} constraint object(s) handed to the recursion", extracted=str(len(objs)), required=str(n_objects), function=site)
+        for i, (hard, soft) in enumerate(objs):
+            want = []
+            if be.lex and be.name == "rc2":
+                # lex rc2 passes two WCNFs that already carry the query (v-side / f-side)
+                want = [("f", verification(QUERY))] if i == 0 else [("f", falsification(QUERY))]
+            okh = canon_items(hard) == canon_items(want) and not soft
+            rep.check(okh, f"{prefix}.start", f"{site}:{rc.node.lineno}", f"strict start constraints #{i}", "the strict recursion starts from the bare query constraints",
+                      extracted=show_items(hard) + (" soft " + show_items(soft) if soft else ""), required=show_items(want), function=site)
+
+    if be.name == "rc2":
+        for p in paths:
+            query_slots(rep, be, site, p, prefix, keys=keys)
+    if strict:
+        start_strict(rep, site, paths, prefix, strict_obj)
+    if extended:
+        n = 0
+        for p in paths:
+            if decided(p, ("truthy", "weakly")) is not True:
+                continue
+            for ev, Q in iter_events(p.events):
+                if ev.kind != "reccall":
+                    continue
+                n += 1
+                start_total(rep, site, p, ev)
+                objs = rec_objects(be, ev)
+                for i, (hard, soft) in enumerate(objs):
+                    want = [INF_ITEM]
+                    if be.lex and be.name == "rc2":
+                        want = want + ([("f", verification(QUERY))] if i == 0 else [("f", falsification(QUERY))])
+                    ok = canon_items(hard) == canon_items(want)
+                    rep.check(ok, "EXT.inf-hard", f"{site}:{ev.node.lineno}", f"infinity layer hard #{i}", "the object handed to the recursion carries ∀c∈P[-1]: material(c) as hard items",
+                              extracted=show_items(hard), required=show_items(want), function=site)
+        rep.floor(f"{prefix} extended entry paths ({be.name})", n, 1)
+        explicit = any(ev.kind == "query" for p in paths for ev, Q in iter_events(p.events) if decided(p, ("truthy", "weakly")) is True)
+        if explicit:
+            got, want, _ = vacuity_guard(rep, site, paths)
+            ok2, w2 = F.guard_implies(want, got)
+            rep.check(ok2, "EXT.vacuity", site, "vacuous True is complete", "a query whose falsification has no feasible model is answered True",
+                      extracted=F.show_guard(got) + (f" misses {w2}" if w2 else ""), required="⊇ " + F.show_guard(want), function=site)
+        else:
+            rep.ok("EXT.vacuity", site, "vacuity through emptiness", "no explicit vacuity test: infeasible sides show as empty families of correction sets, decided by the subset test (W.subset-test rows with empty families) and the enumeration summary")
+    return site, paths
+
+
+# ----------------------------------------------------------------------------------------------
+# lexicographic inference
+# ----------------------------------------------------------------------------------------------
+def _min_term_side(term, V, Fm):
+    """Is a linear term 'min over the sizes of the sets of family X'?  returns 'v' / 'f' / None"""
+    if isinstance(term, tuple) and term and term[0] == "min":
+        segs = term[1]
+        if len(segs) == 1 and segs[0][0] == "each" and segs[0][3] == PTRUE and segs[0][2][0] == "members":
+            fam = segs[0][2][1]
+            if segs[0][4] == ("len", segs[0][1]):
+                if fam == V:
+                    return "v"
+                if fam == Fm:
+                    return "f"
+    return None
+
+
+def lex_rec(rep, ex: Explorer, be: Backend):
+    """LEX.soft/hard, LEX.cardinality on `_rec_inference` (generic families); ties are decided by lex_ties."""
+    qual = f"{be.cls}._rec_inference"
+    site = fn_label(ex.prog, qual)
+    paths = ex.run(qual, be.rec_setup(), summaries=be.summaries(), key=f"lexrec-{be.name}", hooks=be.hooks())
+    n_rows = 0
+    for p in paths:
+        if p.outcome[0] == "raise":
+            continue
+        check_balance(rep, site, p, "LEX")
+        sides = lex_sides(rep, be, site, p)
+        if set(sides) != {"v", "f"}:
+            rep.violation("LEX.soft/hard", site, "two sides", "minimal correction sets are computed for the verification and for the falsification side",
+                          extracted=str(sorted(sides)), required="v and f", function=site)
+            continue
+        V = ("mcs", sides["v"].cid)
+        Fm = ("mcs", sides["f"].cid)
+        facts = []  # (kind, payload, value)
+        tie = False
+        for key, val in p.decisions:
+            if key == ("empty", V):
+                facts.append(("EV", None, val))
+            elif key == ("empty", Fm):
+                facts.append(("EF", None, val))
+            elif key[0] == "cmp" and key[2][0] == "lin":
+                lin = key[2][1]
+                sides_in = {}
+                okl = True
+                for t, c in lin[0]:
+                    sd = _min_term_side(t, V, Fm)
+                    if sd is None:
+                        okl = False
+                    else:
+                        sides_in[sd] = sides_in.get(sd, 0) + c
+                if okl and lin[0]:
+                    facts.append(("CMP", (key[1], sides_in, lin[1]), val))
+                elif all(t == "k" for t, _ in lin[0]):
+                    tie = True
+                else:
+                    raise AnalysisError(f"{site}: comparison not over the minimum cardinalities of the two sides: {key!r}")
+            elif key[0] == "loopexit":
+                tie = True
+            elif key[0] in ("partfalse", "mcs-timeout"):
+                continue
+            else:
+                raise AnalysisError(f"{site}: outcome depends on {key!r}")
+        out = _bool_outcome(p)
+        for EV, EF, mv, mf in product((True, False), (True, False), range(3), range(3)):
+            ok = True
+            for kind, payload, val in facts:
+                if kind == "EV":
+                    ok &= (EV == val)
+                elif kind == "EF":
+                    ok &= (EF == val)
+                else:
+                    op, cs, const = payload
+                    x = cs.get("v", 0) * mv + cs.get("f", 0) * mf + const
+                    ok &= (((x == 0) if op == "==" else (x < 0)) == val)
+            if not ok:
+                continue
+            if EV and EF:
+                continue  # cannot occur behind the short cuts; left unconstrained
+            if EV:
+                want = False
+            elif EF:
+                want = True
+            elif mv < mf:
+                want = True
+            elif mf < mv:
+                want = False
+            else:
+                want = "tie"
+            if want == "tie":
+                if not tie and out in (True, False):
+                    rep.violation("LEX.cardinality", site, f"tie mv=mf={mv}", "equal minimum cardinalities are decided without looking at the lower layers",
+                                  extracted=str(out), required="continue with the minimum-cardinality sets", function=site)
+                continue
+            if tie:
+                # the path went into the tie handling although the cardinalities decide
+                rep.violation("LEX.cardinality", site, f"V{'=∅' if EV else '≠∅'} F{'=∅' if EF else '≠∅'} mv={mv} mf={mf}", "the cardinalities decide but the code continues to the lower layers",
+                              extracted="tie handling", required=str(want), function=site)
+                continue
+            n_rows += 1
+            rep.check(out == want, "LEX.cardinality", site, f"V{'=∅' if EV else '≠∅'} F{'=∅' if EF else '≠∅'}" + ("" if EV or EF else f" mv{'<' if mv < mf else '>'}mf"),
+                      f"outcome {out}", extracted=str(out), required=str(want), function=site)
+        # the tie continues with exactly the minimum-cardinality members of each side
+        if tie:
+            for ev, Q in iter_events(p.events):
+                if ev.kind == "loop" and ev.data.get("exits") is not None and ev.fam in (("members", V), ("members", Fm)):
+                    sd = "v" if ev.fam == ("members", V) else "f"
+                    g = ev.seg_guard
+                    okg = False
+                    if g[0] == "cmp" and g[1] == "==" and g[2][0] == "lin":
+                        lin = g[2][1]
+                        terms = dict(lin[0])
+                        lenterm = ("len", ev.evar)
+                        mins = [t for t in terms if _min_term_side(t, V, Fm) == sd]
+                        okg = lin[1] == 0 and len(terms) == 2 and lenterm in terms and len(mins) == 1 and terms[lenterm] == -terms[mins[0]]
+                    if any(d[0] == "loopexit" for d in p.decisions):
+                        rep.check(okg, "LEX.cardinality", f"{site}:{ev.node.lineno}", f"tie members ({sd}-side)", "a tie continues with exactly the minimum-cardinality sets of each side",
+                                  extracted=show_pred(g), required="|x| = min |·|", function=site)
+    rep.floor(f"LEX cardinality rows ({be.name})", n_rows, 4)
+
+
+def lex_sides(rep, be: Backend, site, p, prefix="LEX"):
+    sides = {}
+    for ev, Q in iter_events(p.events):
+        if ev.kind != "mcs" or Q:
+            continue
+        hard, soft = side_items(be, ev)
+        where = f"{site}:{ev.node.lineno}"
+        if HEAD in hard:
+            role = "v"
+        elif HEAD_F in hard:
+            role = "f"
+        else:
+            rep.violation(f"{prefix}.soft/hard", where, "incoming constraints", "each computation starts from the constraints handed down for its side", extracted=show_items(hard), required="⊇ incoming", function=site)
+            continue
+        head = HEAD if role == "v" else HEAD_F
+        if be.name == "rc2":
+            want_h = [head]  # the query is part of the incoming WCNF (LEX.start)
+        else:
+            want_h = [head, ("f", verification(QUERY) if role == "v" else falsification(QUERY))]
+        rep.check(canon_items(hard) == canon_items(want_h), f"{prefix}.soft/hard", where, f"{role}-side hard items", "hard = the side's incoming constraints (with the query's verification / falsification)",
+                  extracted=show_items(hard), required=show_items(want_h), function=site)
+        want_soft = expected_soft(be, K)
+        rep.check(canon_items(soft) == canon_items(want_soft), f"{prefix}.soft/hard", where, f"{role}-side soft items", "soft = ¬falsification(c), weight 1, for every c of layer k",
+                  extracted=show_items(soft), required=show_items(want_soft), function=site)
+        if be.name == "rc2":
+            check_ignore(rep, site, ev, prefix)
+        sides[role] = ev
+    return sides
+
+
+# ---- ties: two-witness instantiation -----------------------------------------------------------
+W1, W2, X1, X2 = ("w", "v1"), ("w", "v2"), ("w", "f1"), ("w", "f2")
+
+
+def lex_ties(rep, ex: Explorer, be: Backend):
+    """LEX.tie-quantifier / LEX.tie-constraints: the tie handling is run on two abstract witnesses per side (all of
+    minimum cardinality, Rec an uninterpreted predicate); a 2x2 matrix separates ∃∀ from ∀∀, ∃∃ and ∀∃."""
+    from ..absvals import HList
+
+    qual = f"{be.cls}._rec_inference"
+    site = fn_label(ex.prog, qual)
+    role = be.role
+    calls = {"n": 0}
+
+    def fam_value(I, names):
+        return I.alloc(HList([("one", ElemV(n, "set", role, "")) for n in names]))
+
+    def hook(I, v, args, kwargs, node):
+        names = ["wcnf", "ignore", "deadline"]
+        bound = dict(zip(names, args))
+        bound.update(kwargs)
+        w = bound.get("wcnf")
+        snap = I.snapshot(w)
+        hard = wcnf_view(snap)[0]
+        side = "v" if HEAD in hard else "f"
+        I.log("mcs", node, cid=("inst", side), wcnf=w, snap=snap, ignore=None, ignore_view=None, deadline=Const(None))
+        return fam_value(I, (W1, W2) if side == "v" else (X1, X2))
+
+    def summ_xi(I, fi, args, kwargs, node):
+        opt = args[1]
+        snap = I.snapshot(opt)
+        side = "v" if HEAD in flat(snap[3]) else "f"
+        I.log("mcs", node, cid=("inst", side), wcnf=opt, snap=snap, ignore=None, ignore_view=None, deadline=Const(None), part=args[2])
+        r = fam_value(I, (W1, W2) if side == "v" else (X1, X2))
+        I.deref(r).is_set = True
+        return r
+
+    summ = be.summaries()
+    hooks = be.hooks()
+    if be.name == "rc2":
+        hooks[("optimizer", "minimal_correction_subsets")] = hook
+    else:
+        summ[f"{be.cls}.get_all_xi_i"] = summ_xi
+
+    from ..absint import Interp
+
+    I = Interp(ex.prog, summaries=summ, max_depth=ex.max_depth)
+    I.method_hooks.update(hooks)
+    m = LinV(F.lin_term("m"))
+    I.len_override = {W1: m, W2: m, X1: m, X2: m}
+    paths = I.explore(qual, be.rec_setup())
+    if ex.report is not None:
+        ex.report.absorb_stats(I)
+    n = 0
+    for p in paths:
+        if p.outcome[0] == "raise":
+            continue
+        k0 = None
+        recvals = {}
+        rid_pair = {}
+        for ev, Q in iter_events(p.events):
+            if ev.kind == "recurse":
+                hs = rec_hard(be, ev)
+                pair = None
+                if len(hs) == 2:
+                    L = ("at", PVAR, ("lin", K))
+                    sub = {W1: L, W2: L, X1: L, X2: L}
+                    vi = [w for w in (W1, W2) if equiv_items(hs[0][0], tie_items(be, HEAD, w), sub, be.role)]
+                    fj = [w for w in (X1, X2) if equiv_items(hs[1][0], tie_items(be, HEAD_F, w), sub, be.role)]
+                    if len(vi) == 1 and len(fj) == 1:
+                        pair = (vi[0], fj[0])
+                where = f"{site}:{ev.node.lineno}"
+                rep.check(pair is not None, "LEX.tie-constraints", where, "recursion constraints", "each continuation fixes one minimum set per side: falsification for its members, non-falsification for the rest of the layer",
+                          extracted=" / ".join(show_items(h[0]) for h in hs)[:600], required="side constraints ∪ tie(v_i) / side constraints ∪ tie(f_j)", function=site)
+                idx = _index_arg(ev)
+                rep.check(idx == F.lin_add(K, F.lin_const(-1)), "LEX.tie-constraints", where, "recursion index", "a tie continues with the next lower layer", extracted=F.show_lin(idx) if idx else "?", required="k-1", function=site)
+                if pair is not None:
+                    rid_pair[ev.rid] = pair
+        for key, val in p.decisions:
+            if key[0] == "cmp" and key[2][0] == "lin" and all(t == "k" for t, _ in key[2][1][0]):
+                k0 = _k_is_zero((key, val))
+            elif key[0] == "truthy" and isinstance(key[1], tuple) and key[1][:1] == ("rec",):
+                if key[1][1] in rid_pair:
+                    recvals[rid_pair[key[1][1]]] = val
+            elif key[0] in ("partfalse",):
+                continue
+            else:
+                raise AnalysisError(f"{site}: tie handling depends on {key!r}")
+        out = _bool_outcome(p)
+        n += 1
+        if k0 is True:
+            rep.check(out is False and not rid_pair, "LEX.tie-quantifier", site, "tie at layer 0", "a tie at the lowest layer ⇒ False, without recursion", extracted=f"{out}, {len(rid_pair)} recursive call(s)", required="False", function=site)
+            continue
+        if k0 is None and rid_pair:
+            rep.violation("LEX.tie-quantifier", site, "tie at layer 0", "the recursion below a tie is not guarded against layer 0", extracted="no test of k", required="k=0 ⇒ False", function=site)
+        pairs = [(a, b) for a in (W1, W2) for b in (X1, X2)]
+        free = [pr for pr in pairs if pr not in recvals]
+        bad = None
+        for bits in product((True, False), repeat=len(free)):
+            rv = dict(recvals)
+            rv.update(zip(free, bits))
+            want = any(all(rv[(a, b)] for b in (X1, X2)) for a in (W1, W2))
+            if want != out:
+                bad = rv
+                break
+        desc_m = lambda rv: " ".join(f"Rec({a[1]},{b[1]})={'T' if rv[(a, b)] else 'F'}" for a, b in pairs)  # noqa: E731
+        rep.check(bad is None, "LEX.tie-quantifier", site, "tie quantifier: " + " ".join(f"{a[1]}{b[1]}={'T' if v else 'F'}" for (a, b), v in sorted(recvals.items())),
+                  "on a tie the answer is ∃v ∀f: Rec(v,f) over the minimum sets (lexicographic order is total)",
+                  extracted=f"{out}" + (f" for {desc_m(bad)}" if bad else ""), required="∃v∀f Rec(v,f)" + (f" = {not out}" if bad else ""), function=site)
+    rep.floor(f"LEX tie paths ({be.name})", n, 3)
